@@ -4,7 +4,6 @@ import (
 	"fmt"
 	"sort"
 	"time"
-
 )
 
 // WinCfg is the configuration part of a window-family scenario (times in ticks).
